@@ -27,6 +27,11 @@ def batch(kind, n, dtype):
 
 def main():
     payload = json.loads(sys.stdin.read())
+    if payload.get("prelude", True):
+        import os as _os
+        sys.path.insert(0, _os.path.dirname(_os.path.abspath(__file__)))
+        from prelude import run_prelude
+        run_prelude()
     torch.manual_seed(payload.get("seed", 0))
     out = []
     for c in payload["cases"]:
